@@ -44,12 +44,11 @@ StepF(T, ll, a) ==
         op0 == IF known THEN a.opsf[r.o] ELSE PNewOp(r.kind, r.pid)
         o == Adv(g, s, op0)
         d == Diff(o, r)
-        loadins == op0.st \in {"ins", "rains"}
-        bad == IF a.prop[1] # "" THEN <<"", {}>>
+                bad == IF a.prop[1] # "" THEN <<"", {}>>
                ELSE IF Len(r.pg) > T.cap \/ r.n > T.cap
-                    THEN <<"PROP:capacity", IF d = "" /\ loadins /\ P1 \in Dev THEN {1} ELSE {}>>
+                    THEN <<"PROP:capacity", IF d = "" /\ P1 \in Dev THEN {1} ELSE {}>>
                ELSE IF ~DirtyCovered(s.dirty, s.wb, SeqSet(r.dirty), r.wb)
-                    THEN <<"PROP:dirty_lost", IF d = "" /\ loadins /\ P2 \in Dev THEN {2} ELSE {}>>
+                    THEN <<"PROP:dirty_lost", IF d = "" /\ P2 \in Dev /\ o.s.lost > s.lost THEN {2} ELSE {}>>
                ELSE <<"", {}>>
         ns == [o.s EXCEPT !.pg = r.pg, !.dirty = SeqSet(r.dirty), !.wb = r.wb]
     IN [s |-> ns,
